@@ -41,6 +41,7 @@ def plan(tier, seed):
     units = []
     for kind in ("fit", "transform", "runtime", "direct"):  # slow kinds first
         units += [{"uid": f"{kind}{i}", "kind": kind, "i": i} for i in range(N[tier][kind])]
+    units.append({"uid": "psprobe", "kind": "psprobe", "i": 0})
     return units
 
 
@@ -87,7 +88,45 @@ def gen_defn(rng, kind, i=0):
                                    n_sensor=(1, 2), n_reading=(1, 3), depth=1, n_shared=(0, 1))
 
 
+def run_ps_probe(unit, ctx):
+    """Known finding proactive-simplify:wrong-value at its fixed witness: the filter's prediction follows the
+    expression that ui.Model(proactive_simplify=True) kept."""
+    from .. import probes
+
+    R = K.Result()
+    defn, pt = probes.ps_witness_defn(), probes.ps_witness_point()
+    b = build.Built(defn)
+    changed = probes.simplify_changed_value(b)
+    inner = K.Result()
+    armed = monitors.Armed(inner, process=True, sensor=False)
+    try:
+        ekf = b.py_ekf(common_subexpression_elimination=False, innovation_filtering=None)
+        names = sorted(defn["state"])
+        ekf.process_model(pt["dt"], ekf.State(b=pt["b"], x=pt["x"]),
+                          monitors.cov_from_matrix(ekf.Covariance, np.eye(2), names), ekf.Control(t=pt["t"]))
+    finally:
+        armed.disarm()
+    out = inner.out()
+    R.evals += 1
+    vs = [v for v in out.get("violations", [])]
+    if vs and changed:
+        R.stats.inc("probe_known")
+        R.add([K.V(probes.KEY_PS, f"process_model: {vs[0]['what']}", defn=defn, point=pt)])
+    else:
+        R.add(vs)
+    return R.out()
+
+
 def run_unit(unit, ctx):
+    from .. import probes
+
+    # see C01: classification by mechanism of the known finding proactive-simplify:wrong-value
+    return probes.reclassify_ps(_run_unit(unit, ctx))
+
+
+def _run_unit(unit, ctx):
+    if unit["kind"] == "psprobe":
+        return run_ps_probe(unit, ctx)
     R = K.Result()
     rng = K.unit_rng(ID, ctx["seed"], unit)
     kind = unit["kind"]
